@@ -220,6 +220,42 @@ static string mat_json(const Matrix4<int64_t>& m) {
   return s + "]";
 }
 
+// order and equality for UNSIGNED component types (components 0..4): a comparison must not go through the sign of a
+// difference, which an unsigned type does not have
+template <typename V, int D>
+static void vec_order_cases(vt::Rng& r, long npairs) {
+  vector<vector<int>> all;
+  vector<int> idx(D, 0);
+  for (;;) {
+    all.push_back(idx);
+    int i = D - 1;
+    while (i >= 0 && ++idx[i] == 5) idx[i--] = 0;
+    if (i < 0) break;
+  }
+  for (const char* opc : {"eq", "ne", "lt"}) {
+    string op = opc;
+    string us = "[", vs = "[", rs = "[";
+    vector<long long> ks;
+    bool exhaustive = (long)all.size() * (long)all.size() <= npairs;
+    long n = exhaustive ? (long)all.size() * (long)all.size() : npairs;
+    for (long c = 0; c < n; c++) {
+      const vector<int>& uc = exhaustive ? all[c / all.size()] : all[r.below(all.size())];
+      const vector<int>& vc = exhaustive ? all[c % all.size()] : (r.chance(30) ? uc : all[r.below(all.size())]);
+      V u = mk<V, D>(uc), v = mk<V, D>(vc);
+      long long res = op == "eq" ? (u == v) : op == "ne" ? (u != v) : (u < v);
+      us += (c ? "," : "") + iv(vector<long long>(uc.begin(), uc.end()));
+      vs += (c ? "," : "") + iv(vector<long long>(vc.begin(), vc.end()));
+      rs += (c ? "," : "") + iv({res});
+      ks.push_back(0);
+    }
+    vt::J j;
+    j.str("e", "vec").num("dim", D).str("op", op).raw("u", us + "]").raw("v", vs + "]").raw("k", iv(ks)).raw("r", rs + "]");
+    tr.emit(j);
+    tr.events += n - 1;
+    tr.nontrivial("vecu" + to_string(D) + op + to_string(sizeof(V) / D));
+  }
+}
+
 int main(int argc, char** argv) {
   if (argc < 4) return 2;
   tr.open(argv[1]);
@@ -312,6 +348,14 @@ int main(int argc, char** argv) {
   vec_cases<Vector2<int64_t>, 2>(r, 7000);
   vec_cases<Vector3<int64_t>, 3>(r, quick ? 4000 : 40000);
   vec_cases<Vector4<int64_t>, 4>(r, quick ? 2000 : 20000);
+  vec_order_cases<Vector2<uint32_t>, 2>(r, 700);
+  vec_order_cases<Vector3<uint32_t>, 3>(r, quick ? 2000 : 16000);
+  vec_order_cases<Vector4<uint32_t>, 4>(r, quick ? 2000 : 20000);
+  vec_order_cases<Vector2<uint64_t>, 2>(r, 700);
+  vec_order_cases<Vector3<uint64_t>, 3>(r, quick ? 2000 : 16000);
+  vec_order_cases<Vector4<uint64_t>, 4>(r, quick ? 2000 : 20000);
+  vec_order_cases<Vector4<uint8_t>, 4>(r, 1000);
+  vec_order_cases<Vector3<double>, 3>(r, 1000);
   // matrices over small integers
   {
     int n = quick ? 1500 : 10000;
